@@ -237,3 +237,78 @@ class CallRecordsOneValue:
 
     def ensures_largest_value_seen(value, g_field, result):
         return result[0].max_value == max(g_field.max_value, value) and result[0].length == g_field.length
+
+
+# ---- get_mask / get_value: one selected field (fragments) -----------------------------------------------------------------------------
+WORD64 = TBV(W, 0, 2 ** 64 - 1)
+FIELD_LS = TRec("Field", length=TOpt(TBV(W, 1, 64)), start_at=TOpt(TBV(W, 0, 63)))
+
+
+def _u(x):
+    return x
+
+
+def _window(length, start):
+    """the bits a field of that length at that position occupies"""
+    return (1 << (start + length)) - (1 << start)
+
+
+@contract("rig/bitfield.py::BitField.get_mask@forbody:0")
+class GetMaskStep:
+    """one selected field: its window - exactly the bits start .. start+length-1 - is added to the mask, nothing else changes;
+    a field without a fixed size or position is refused"""
+    properties = ("C08",)
+    bv = W
+    params = dict(identifier=TInt(), field=FIELD_LS, mask=WORD64)
+    fragment_result = ("mask",)
+    fragment_head = "for identifier, field in iteritems(selected_fields):"
+    raises = {"ValueError": None}
+    options = {"no_merge": True}
+
+    def native(mask):
+        raise __import__("pyvc.replay", fromlist=["OutsideHarness"]).OutsideHarness()
+
+    def requires(field):
+        return field.length is None or field.start_at is None or _u(field.start_at) + _u(field.length) <= 64
+
+    def raises_ValueError(field):
+        return field.length is None or field.start_at is None
+
+    def ensures_adds_exactly_the_fields_window(field, mask, result):
+        return (field.length is not None and field.start_at is not None
+                and result[0] == (mask | _window(_u(field.length), _u(field.start_at))))
+
+
+def _fv_get(E, obj, args, kwargs, st, node):
+    return [(st, st.env["g_value"], None)]
+
+
+@contract("rig/bitfield.py::BitField.get_value@forbody:0")
+class GetValueStep:
+    """one selected field with a value that fits it: the value is written into the field's own window - it reads back from
+    exactly those bits - and every bit outside the window is unchanged"""
+    properties = ("C08",)
+    bv = W
+    params = dict(self=TRec("BitField", field_values=TRec("Values")), identifier=TInt(), field=FIELD_LS, value=WORD64, g_value=WORD64)
+    fragment_result = ("value",)
+    fragment_head = "for identifier, field in iteritems(selected_fields):"
+    externals = {"Values.__getitem__": _fv_get}
+    raises = {"ValueError": None}
+    options = {"no_merge": True}
+    assumptions = ["self.field_values[identifier] is the ghost g_value; the window is free in the value so far (fields present together do not overlap: add_field's checks / assign_fields)"]
+
+    def native(value):
+        raise __import__("pyvc.replay", fromlist=["OutsideHarness"]).OutsideHarness()
+
+    def requires(field, value, g_value):
+        return (field.length is None or field.start_at is None
+                or (_u(field.start_at) + _u(field.length) <= 64 and g_value < (1 << _u(field.length))
+                    and (value & _window(_u(field.length), _u(field.start_at))) == 0))
+
+    def raises_ValueError(field):
+        return field.length is None or field.start_at is None
+
+    def ensures_reads_back_from_its_window_and_leaves_the_rest(field, value, g_value, result):
+        w = _window(_u(field.length), _u(field.start_at))
+        return (field.length is not None and field.start_at is not None
+                and ((result[0] & w) >> _u(field.start_at)) == g_value and (result[0] & ~w) == (value & ~w))
